@@ -7,12 +7,26 @@ import plans
 HOOK_COMMITS = ["3000279"]
 
 TECH = {
-    "C01": "runtime monitor: mutation histories replayed on the real types and on an executable reference model, full observation after every call; ASan + debug UB-precondition checks (+ Miri in thorough)",
-    "C02": "runtime monitor: every query compared with a reference model over generated digraphs; ASan, debug UB checks (+ Miri)",
-    "C03": "runtime monitor: Dijkstra results/sequences vs Bellman-Ford on a reference model; ASan, debug UB checks (+ Miri)",
+    "C01": "runtime monitor: mutation histories replayed on the real types and on an executable reference model, full observation after every call; ASan, debug UB-precondition/overflow checks (+ Miri in thorough)",
+    "C02": "runtime monitor: every query compared with a reference model over generated digraphs (all five types, non-contiguous maps); ASan, debug UB checks (+ Miri)",
+    "C03": "runtime monitor: Dijkstra results and item sequences vs Bellman-Ford on a reference model (superseded-heap-entry, scaled-weight and tie strata); ASan, debug UB checks (+ Miri)",
     "C04": "runtime monitor: BFS sequences/distances vs reference BFS levels in all five types; ASan, debug UB checks (+ Miri)",
     "C05": "runtime monitor: predecessor trees, shortest paths and cycles judged against reference distances and the arc set; ASan, debug UB checks (+ Miri)",
     "C06": "runtime monitor: online trace checker of the depth-first preorder rule + reachability from the model; known finding classified by exact signature; ASan, debug UB checks (+ Miri)",
+    "C07": "runtime monitor: BellmanFordMoore from every source vs Bellman-Ford on a reference model, arc counts of every residue mod 4, scaled weights, repeated calls; ASan, debug UB checks (+ Miri)",
+    "C08": "runtime monitor: every Floyd-Warshall entry vs Bellman-Ford on a reference model and vs BellmanFordMoore, repeated calls; ASan, debug UB checks (+ Miri)",
+    "C09": "runtime monitor: Tarjan components vs classes of mutual reachability on a reference model (all types, non-contiguous maps, deep-recursion inputs, repeated calls and clones); ASan, debug UB checks (+ Miri)",
+    "C10": "runtime monitor: Johnson75 output vs brute-force circuit enumeration on a reference model, exhaustive for order <= 4 (5 in thorough); ASan, debug UB checks (+ Miri)",
+    "C11": "runtime monitor: set-algebra model comparison + algebraic laws, CPU-affinity sweep with seeded delays, tiling monitor over a hook event log; ASan, Miri (3 simulated CPUs), debug UB checks (+ TSan in thorough)",
+    "C12": "runtime monitor: predicates vs their definitions on boundary-family digraphs and derived pairs, CPU-affinity sweep + tiling monitor for the parallel is_semicomplete; ASan, Miri, debug UB checks (+ TSan)",
+    "C13": "sanitizers as oracle: probe catalogue + random API programs in sharded child processes under ASan+LSan, Miri, debug UB-precondition checks, crash attribution per case; counting-allocator heap-growth monitor (+ TSan in thorough)",
+    "C14": "runtime monitor: closed-form comparison of every generator at every order 1..130 (+ larger), all four types, exhaustive for the stated ranges; CPU-affinity sweep + tiling monitor for the parallel complete; ASan, debug UB checks (+ Miri, TSan)",
+    "C15": "runtime monitor: structural oracle + repeat-equality + cross-process digest comparison per CPU mask, tiling monitor on the hook log; ASan, Miri (+ more Miri seeds/CPUs and TSan in thorough)",
+    "C16": "runtime monitor: conversions and iterator builders compared with a reference model, round trips, chains, invalid inputs must panic; ASan, debug UB checks (+ Miri)",
+    "C17": "runtime monitor: the same cases under every CPU mask (taskset) and several delay seeds: model comparison in each, cross-configuration digest comparison, tiling monitor over the hook event log; ASan, Miri with 3 simulated CPUs (+ Miri seeds x CPUs and TSan in thorough)",
+    "C18": "runtime monitor: DistanceMatrix metrics vs their definitions over generated matrices (ties, all-infinite rows, Floyd-Warshall outputs); ASan, debug UB checks (+ Miri)",
+    "C19": "runtime monitor: search/search_by vs a functional-graph walk, exhaustive for vectors of length <= 5 (6 in thorough) plus long random shapes; bounded-step termination monitor; ASan, debug UB checks (+ Miri)",
+    "C20": "runtime monitor: ==, !=, cmp, <,<=,>,>=, Hash, clone, clone_from compared with equality of reference models over pairs of construction histories; ASan, debug UB checks (+ Miri)",
 }
 
 def main():
